@@ -1,7 +1,7 @@
 """C09 — the destination receives exactly the image that was built (structural clauses)."""
 from engine.mir import CalleeView, norm
 from engine.origin import Origin, strip, core, nosite, show, walk, root
-from engine.paths import Exits, must_pass, witness_path, reachable_after
+from engine.paths import Exits, must_pass, witness_path, reachable_after, switch_atom
 
 PROPERTY = "C09"
 EXPLANATION = ("Static rules on DirSection and its users: (seek-targets) every Seek::seek is SeekFrom::Start of either "
